@@ -22,6 +22,7 @@
 // cannot do: no spurious EAGAIN on edge-triggered streams, no 0 for a non-empty request, nothing on other fds.
 #include "vh.h"
 #include <photon/net/socket.h>
+#include <photon/io/fd-events.h>
 #include <photon/common/timeout.h>
 #include <dlfcn.h>
 #include <sys/uio.h>
@@ -1025,10 +1026,106 @@ static Role plan_role(vh::Rng& r, bool tick, uint32_t maxcall) {
     return ro;
 }
 
+
+// ------------------------------------------------------------------ probe: many descriptors become ready in one burst
+// N readers (17 <= N <= 48) of one vCPU block in read() on N connections; one OS-level pass without any photon
+// scheduling writes a message to every connection; then nothing more happens in that direction. Every reader has to
+// come back: an engine that reports only a batch of the ready descriptors and is then not told about the rest again
+// leaves the others asleep next to their data. (The ordinary workload keeps producing new events, which rescues such
+// sleepers and turns the defect into latency only.) Verdict: a reader still blocked 3 s after the burst although the
+// kernel reports its bytes - the same kind of gated silence window as the stuck rules of the main workload.
+namespace burst {
+struct R { photon::net::ISocketStream* s = nullptr; std::atomic<int> state{0}; ssize_t ret = -2; int err = 0; char buf[64]; };
+static vh::NamedCounter c_rounds("burst_rounds"), c_woken("burst_readers_woken"), c_accepts("burst_accepts_in_one_go");
+static void* reader(void* a) {
+    R& r = *(R*)a;
+    r.state.store(1, vh::MO);
+    r.ret = r.s->read(r.buf, sizeof(r.buf));
+    r.err = errno;
+    r.state.store(2, vh::MO);
+    c_woken.add(); vh::event(); vh::progress();
+    return nullptr;
+}
+static int run(vh::Rng& r) {
+    using namespace photon; using namespace photon::net;
+    uint64_t engine = vh::args().has("engine") ? (vh::args().geti("engine", 0) ? INIT_EVENT_EPOLL_NG : INIT_EVENT_EPOLL) : (r.chance(2, 3) ? INIT_EVENT_EPOLL_NG : INIT_EVENT_EPOLL);
+    const char* en = engine == INIT_EVENT_EPOLL_NG ? "epoll-ng" : "epoll";
+    int rounds = vh::args().thorough() ? 12 : 4;
+    if (vh::is_tsan()) rounds = std::max(2, rounds / 2);
+    vh::config("section", "burst-probe"); vh::config("engine", en); vh::config("rounds", rounds);
+    vh::start_supervisor([](std::string& k, std::string& w, std::string&) { k = "sock-burst-probe"; w = "probe made no progress"; return false; });
+    vh::VCpus vc;
+    vc.run(1, nullptr, [&](int) {
+        auto srv = new_tcp_socket_server();
+        if (srv->bind(EndPoint(IPAddr("127.0.0.1"), 0)) != 0 || srv->listen(256) != 0) vh::machinery_failure("burst: bind/listen");
+        auto ep = srv->getsockname();
+        auto cli = new_tcp_socket_client();
+        for (int round = 0; round < rounds; ++round) {
+            int n = r.pick({17, 20, 24, 33, 48});
+            std::vector<R> rd(n);
+            std::vector<ISocketStream*> cs(n);
+            std::vector<join_handle*> jh;
+            // connect all first: the accepts below then find all connections pending at once as well
+            for (int i = 0; i < n; ++i) { cs[i] = cli->connect(ep); if (!cs[i]) vh::machinery_failure("burst: connect"); }
+            for (int i = 0; i < n; ++i) { rd[i].s = srv->accept(); if (!rd[i].s) vh::machinery_failure("burst: accept"); rd[i].s->timeout(20UL * 1000 * 1000); c_accepts.add(); }
+            for (int i = 0; i < n; ++i) jh.push_back(thread_enable_join(thread_create(reader, &rd[i], 128 * 1024)));
+            // all readers suspended in read()
+            for (int i = 0; i < n; ++i) while (rd[i].state.load(vh::MO) < 1 || thread_stat((thread*)jh[i]) != SLEEPING) thread_usleep(200);
+            thread_usleep(2000);
+            // the burst: plain writes on the client descriptors, no photon scheduling in between
+            char msg[64];
+            for (int i = 0; i < n; ++i) {
+                memset(msg, 'a' + (i % 26), sizeof(msg));
+                int fd = cs[i]->get_underlay_fd();
+                if (::write(fd, msg, sizeof(msg)) != (ssize_t)sizeof(msg)) vh::machinery_failure("burst: write on a fresh connection failed");
+            }
+            auto t0 = vh::boottime_us();
+            int done = 0;
+            while (vh::boottime_us() - t0 < 3000000) {
+                done = 0;
+                for (int i = 0; i < n; ++i) done += rd[i].state.load(vh::MO) == 2;
+                if (done == n) break;
+                thread_usleep(1000);
+                vh::progress();
+            }
+            if (done < n) {
+                int readable = 0; std::string asleep;
+                for (int i = 0; i < n; ++i) if (rd[i].state.load(vh::MO) != 2) {
+                    int q = 0; ioctl(rd[i].s->get_underlay_fd(), FIONREAD, &q);
+                    if (q >= 64) readable++;
+                    asleep += std::to_string(i) + " ";
+                }
+                if (readable > 0)
+                    vh::violation(std::string("burst/reader-not-woken:") + en, "readers stay blocked in read() 3 s after their bytes arrived together with those of many other "
+                                  "descriptors of the same vCPU, and nothing else happens in that direction",
+                                  vh::JObj().kv("readers", n).kv("woken", done).kv("asleep_with_bytes_in_the_socket", readable).kv("asleep", asleep).str());
+                else vh::inconclusive("burst probe: readers not done and the kernel does not report their bytes");
+                for (int i = 0; i < n; ++i) if (rd[i].state.load(vh::MO) != 2) thread_interrupt((thread*)jh[i], ECANCELED);
+            }
+            for (auto h : jh) thread_join(h);
+            for (int i = 0; i < n; ++i)
+                if (rd[i].state.load(vh::MO) == 2 && rd[i].ret == 64) {
+                    for (int k = 0; k < 64; ++k) if (rd[i].buf[k] != 'a' + (i % 26)) { vh::violation("burst/content-mismatch", "a reader got other bytes than were written to its connection", "null"); break; }
+                } else if (done == n)
+                    vh::violation("burst/short-read", "read(64) of a reader returned another count although 64 bytes were written to its connection",
+                                  vh::JObj().kv("ret", (int64_t)rd[i].ret).kv("errno", rd[i].err).str());
+            for (int i = 0; i < n; ++i) { delete rd[i].s; delete cs[i]; }
+            c_rounds.add();
+            vh::progress();
+        }
+        delete cli; delete srv;
+    }, [&](int) { if (photon::fd_events_init(engine) != 0) vh::machinery_failure("fd_events_init"); }, [&](int) { photon::fd_events_fini(); });
+    vh::set_sig(std::string("burst|") + en, c_woken.get() >= 17);
+    vh::sample(vh::JObj().kv("section", "burst-probe").kv("engine", en).kv("rounds", c_rounds.get()).kv("readers_woken", c_woken.get()).str());
+    return vh::finish();
+}
+}  // namespace burst
+
 int main(int argc, char** argv) {
     vh::init(argc, argv);
     shim::resolve();
     vh::Rng r(vh::args().xseed());
+    if (vh::args().has("section") ? vh::args().gets("section", "") == "burst" : vh::args().exec % 8 == 4) return burst::run(r);
     auto& A = vh::args();
     // ---- configuration
     G.nv = A.geti("vcpus", r.chance(1, 2) ? 1 : 2);
